@@ -168,11 +168,35 @@ Definition c16_applies (k : wi_case) (name : bytes) (on : bool) : bool :=
   && negb (bytes_eqb (c_rid_hdr (wi_cfg k)) (c_tr_hdr (wi_cfg k)))
   && negb (has_reqid (c_chain (wi_cfg k)) && bytes_eqb name s_xrid && negb on).
 
+(* the tutorial request-id plugin owns X-Request-Id when no enabled feature is configured on that name: a client-supplied value
+   is passed on and echoed unchanged, otherwise the value the backend sees is the (generated) value the client gets *)
+Definition c16_plug (k : wi_case) : bool * bool :=
+  let c := wi_cfg k in
+  let owned := has_reqid (c_chain c)
+               && negb (c_rid c && bytes_eqb (c_rid_hdr c) s_xrid) && negb (c_tr c && bytes_eqb (c_tr_hdr c) s_xrid)
+               && negb (existsb (bytes_eqb s_xrid) (reqset_keys c ++ set_keys c))
+               (* after an interim response of the backend httputil.ReverseProxy starts the header map afresh: what plugins had set is
+                  gone, as for the `headers` plugin (c17_order); only the ID middleware re-asserts its own headers *)
+               && (match rv_interim (wi_direct k) with [] => true | _ => false end) in
+  match wi_back k with
+  | Some o =>
+      if owned then
+        let supplied := match hvalues s_xrid (q_hdrs (wi_req k)) with [] => [] | v :: _ => trim_ows v end in
+        let got := hvalues s_xrid (rv_hdrs (wi_through k)) in
+        let seen := hvalues s_xrid (bv_hdrs o) in
+        let equal := match seen, got with [b], g :: _ => bytes_eqb b g | _, _ => false end in
+        let echo := if bytes_eqb supplied [] then true else match got with g :: _ => bytes_eqb g supplied | [] => false end in
+        (equal, echo)
+      else (true, true)
+  | None => (true, true)
+  end.
+
 Definition c16_all (k : wi_case) : bool * bool * bool * bool * bool :=
   let c := wi_cfg k in
   let '(p1, e1, c1, f1, d1) := if c16_applies k (c_rid_hdr c) (c_rid c) then c16_one (c_rid c) (c_rid_hdr c) p_req k else (true, true, true, true, true) in
   let '(p2, e2, c2, f2, d2) := if c16_applies k (c_tr_hdr c) (c_tr c) then c16_one (c_tr c) (c_tr_hdr c) p_trace k else (true, true, true, true, true) in
-  (p1 && p2, e1 && e2, c1 && c2, f1 && f2, d1 && d2).
+  let '(pe, pc) := c16_plug k in
+  (p1 && p2, e1 && e2 && pe, c1 && c2 && pc, f1 && f2, d1 && d2).
 
 (* C17 on the real stack: the first plugin (in configured order) that rejects this request *)
 Fixpoint first_rejecter (chain : list wplug) (q : wreq) (i : nat) : option (nat * Z) :=
